@@ -86,6 +86,9 @@ void harness_der_parse(void) {
             __CPROVER_assert(0, "witness: in-range signature of this length accepted");
 #endif
         }
+#if defined(FIXLEN) && FIXLEN > 72
+        __CPROVER_assert(0, "witness: an over-long encoding is accepted (with out-of-range integers read as 0)");
+#endif
     }
 }
 
